@@ -317,6 +317,9 @@ def run(tier: str, budget: Budget, rnd, prop: str) -> StreamResult:
                 break
     if prop == "C08":
         nonfinite_knowledge_cases(res, rnd, tier)
+    if prop == "C01":
+        from common import optimized_probe
+        optimized_probe(res, "game", rnd.randrange(10 ** 6), "bounds:interpreter-flag")
     return res
 
 
